@@ -33,7 +33,7 @@ func runC04(c *Ctx) {
 	depth := 3
 	cfgs := []Cfg{{}, {Cache: true, Compress: true}, {Async: 1, Index: 2}, {Index: 1, Lower: true, Ext: ".obj"}, {Async: 2, MapRev: true}}
 	if c.Tier == "thorough" {
-		depth = 4
+		depth = 5
 		cfgs = cfgQuick
 	}
 	opt := ObsOpt{Ordered: true, Trees: true}
